@@ -149,6 +149,17 @@ def _ite(c, a, b):
     return z3.If(c, a, b)
 
 
+class Opt:
+    """An optional number: `x is None` / `x is not None` read the flag, arithmetic reads the value."""
+
+    def __init__(self, has, val):
+        self.has, self.val = has, val
+
+
+def _num(v):
+    return v.val if isinstance(v, Opt) else v
+
+
 def _dotted(node):
     parts = []
     while isinstance(node, ast.Attribute):
@@ -204,7 +215,7 @@ class _Tr:
             hi = self.ex(node.slice.upper, env) if node.slice.upper is not None else None
             return py_slice(s, lo, hi)
         if isinstance(node, ast.BinOp):
-            a, b = self.ex(node.left, env), self.ex(node.right, env)
+            a, b = _num(self.ex(node.left, env)), _num(self.ex(node.right, env))
             if isinstance(node.op, ast.Add):
                 return s_concat(a, b) if _is_str(a) else a + b
             if isinstance(node.op, ast.Sub):
@@ -229,6 +240,10 @@ class _Tr:
             out = []
             for op, right in zip(node.ops, node.comparators):
                 r = self.ex(right, env)
+                if isinstance(op, (ast.Is, ast.IsNot)) and r is None and isinstance(left, Opt):
+                    out.append(z3.Not(left.has) if isinstance(op, ast.Is) else left.has)
+                    left = r
+                    continue
                 if isinstance(op, (ast.In, ast.NotIn)) and _is_str(left) and isinstance(r, (tuple, list, frozenset, set)):
                     t = z3.Or(*[s_eq_const(left, c) for c in sorted(r)]) if r else z3.BoolVal(False)
                     out.append(t if isinstance(op, ast.In) else z3.Not(t))
